@@ -327,7 +327,12 @@ let gdep = function
   | DRead (r, c, st) -> Printf.sprintf "(DRead %s %s %s)" (gn r) (gn c) (gz st)
   | DWrite (r, c, st) -> Printf.sprintf "(DWrite %s %s %s)" (gn r) (gn c) (gz st)
 
-(* one line per case: "X <table> @@ <steps> @@ <expected projection>", or "SKIP" for histories with steps outside run_history *)
+(* one line per case: "X <table> @@ <steps> @@ <expected projection>".  Steps are written in the little wrapper type of the check
+   file: XPlain (a step of Build.run_history), XM (a session with external edits: run_msession), XZ (a Session used on after a
+   caught abort: run_zsession) -- exactly the three runners run_pie_case uses *)
+let gmop = function MSop o -> "(MSop " ^ gsop o ^ ")" | MEdit (r, v) -> Printf.sprintf "(MEdit %s %s)" (gn r) (gopt gz v)
+type xstep = XPlain of step | XM of mop list | XZ of mop list
+let gxstep = function XPlain s -> "(XPlain " ^ gstep s ^ ")" | XM l -> "(XM " ^ glist gmop l ^ ")" | XZ l -> "(XZ " ^ glist gmop l ^ ")"
 let run_pie_raw (toks : string list) (fuel : nat) =
   let t = { l = toks } in
   if next t <> "T" then failwith "expected T";
@@ -336,35 +341,39 @@ let run_pie_raw (toks : string list) (fuel : nat) =
   for _ = 1 to ntasks do let id = num t in let c = parse_code t in tb := !tb @ [(n_of_int id, c)] done;
   if next t <> "H" then failwith "expected H";
   let steps = ref [] in
-  let plain = ref true in
   while peek t <> None do
     (match next t with
-     | "E" -> let r = num t in let v = num t in steps := !steps @ [HEdit (n_of_int r, Some (z_of_int v))]
-     | "D" -> let r = num t in steps := !steps @ [HEdit (n_of_int r, None)]
-     | "F" -> let k = num t in let rs = List.init k (fun _ -> n_of_int (num t)) in steps := !steps @ [HEnv rs]
-     | "S" -> let k = num t in
-       let ops = List.init k (fun _ -> match next t with
-           | "q" -> SRequire (n_of_int (num t))
-           | "b" -> let m = num t in SBottomUp (List.init m (fun _ -> n_of_int (num t)))
-           | _ -> plain := false; let _ = num t in let _ = num t in SRequire (n_of_int 0)) in
-       steps := !steps @ [HSession ops]
-     | _ -> plain := false; t.l <- [])
+     | "E" -> let r = num t in let v = num t in steps := !steps @ [XPlain (HEdit (n_of_int r, Some (z_of_int v)))]
+     | "D" -> let r = num t in steps := !steps @ [XPlain (HEdit (n_of_int r, None))]
+     | "F" -> let k = num t in let rs = List.init k (fun _ -> n_of_int (num t)) in steps := !steps @ [XPlain (HEnv rs)]
+     | ("S" | "Z") as kind -> let k = num t in
+       let mops = List.init k (fun _ -> match next t with
+           | "q" -> MSop (SRequire (n_of_int (num t)))
+           | "b" -> let m = num t in MSop (SBottomUp (List.init m (fun _ -> n_of_int (num t))))
+           | "e" -> let r = num t in let v = num t in MEdit (n_of_int r, Some (z_of_int v))
+           | x -> failwith ("bad sop " ^ x)) in
+       let has_edit = List.exists (function MEdit _ -> true | _ -> false) mops in
+       let sops = List.filter_map (function MSop o -> Some o | MEdit _ -> None) mops in
+       steps := !steps @ [if kind = "Z" then XZ mops else if has_edit then XM mops else XPlain (HSession sops)]
+     | x -> failwith ("bad step " ^ x))
   done;
-  if not !plain then print_endline "SKIP"
-  else begin
-    let w = ref init_world in
-    let results = List.map (fun s -> let (rs, w') = dsl_run_step !tb fuel !w s in w := w'; rs) !steps in
-    let w = !w in
-    Printf.printf "X %s @@ %s @@ (%s, %s, %s, %s, %s, %s, %s, %s, %s)\n"
-      (glist (fun (k, c) -> "(" ^ gn k ^ ", " ^ gcode c ^ ")") !tb)
-      (glist gstep !steps)
-      (glist (glist gsres) results)
-      (glist (fun (k, v) -> "(" ^ gn k ^ ", " ^ gz v ^ ")") w.outs)
-      (glist (fun (k, v) -> "(" ^ gn k ^ ", " ^ gz v ^ ")") w.rstate)
-      (glist gn w.consistent) (glist gz w.errs) (glist gevent w.trace) (glist gn w.queue)
-      (glist (fun (nd, i) -> Printf.sprintf "(%s, %s, %s, %s)" (gn nd) (gn i.rank) (glist gn i.kids) (glist gn i.pars)) w.gr.infos)
-      (glist (fun ((a, b), d) -> Printf.sprintf "((%s, %s), %s)" (gn a) (gn b) (gdep d)) w.gr.edata)
-  end
+  let w = ref init_world in
+  let results = List.map (fun s ->
+      let (rs, w') = match s with
+        | XPlain st -> dsl_run_step !tb fuel !w st
+        | XM mops -> dsl_run_msession !tb fuel (new_session !w) mops
+        | XZ mops -> dsl_run_zsession !tb fuel (new_session !w) mops in
+      w := w'; rs) !steps in
+  let w = !w in
+  Printf.printf "X %s @@ %s @@ (%s, %s, %s, %s, %s, %s, %s, %s, %s)\n"
+    (glist (fun (k, c) -> "(" ^ gn k ^ ", " ^ gcode c ^ ")") !tb)
+    (glist gxstep !steps)
+    (glist (glist gsres) results)
+    (glist (fun (k, v) -> "(" ^ gn k ^ ", " ^ gz v ^ ")") w.outs)
+    (glist (fun (k, v) -> "(" ^ gn k ^ ", " ^ gz v ^ ")") w.rstate)
+    (glist gn w.consistent) (glist gz w.errs) (glist gevent w.trace) (glist gn w.queue)
+    (glist (fun (nd, i) -> Printf.sprintf "(%s, %s, %s, %s)" (gn nd) (gn i.rank) (glist gn i.kids) (glist gn i.pars)) w.gr.infos)
+    (glist (fun ((a, b), d) -> Printf.sprintf "((%s, %s), %s)" (gn a) (gn b) (gdep d)) w.gr.edata)
 
 (* ------------------------------------------------------------------ tracker probe *)
 let parse_cres (s : string) : cres =
